@@ -181,6 +181,28 @@ theorem line_intersects_shift (a b : Line2 ℝ) (wx wy : ℝ) :
   simp only [Line2.intersects, Line2.dx, Line2.dy, shiftL, add_sub_add_right_eq_sub]
   rfl
 
+/-- `NearParallel` only looks at differences of end points -/
+theorem nearParallel_shift (a b : Line2 ℝ) (wx wy : ℝ) :
+    C12.NearParallel (shiftL a wx wy) (shiftL b wx wy) ↔ C12.NearParallel a b := by
+  unfold C12.NearParallel C12.Line2.len Line2.dx Line2.dy shiftL
+  simp only [add_sub_add_right_eq_sub]
+
+/-- a common point of two segments moves with them -/
+theorem sharePoint_shift (a b : Line2 ℝ) (wx wy : ℝ) :
+    C12.SharePoint (shiftL a wx wy) (shiftL b wx wy) ↔ C12.SharePoint a b := by
+  unfold C12.SharePoint C12.Line2.at shiftL
+  simp only [add_sub_add_right_eq_sub, Prod.mk.injEq]
+  constructor <;> rintro ⟨s, t, h1, h2, h3, h4, e1, e2⟩ <;>
+    exact ⟨s, t, h1, h2, h3, h4, by linarith, by linarith⟩
+
+theorem nearParallel_symm (a b : Line2 ℝ) : C12.NearParallel a b ↔ C12.NearParallel b a := by
+  unfold C12.NearParallel
+  rw [show a.dy * b.dx - a.dx * b.dy = -(b.dy * a.dx - b.dx * a.dy) by ring, abs_neg,
+    mul_comm (C12.Line2.len b)]
+
+theorem sharePoint_symm (a b : Line2 ℝ) : C12.SharePoint a b ↔ C12.SharePoint b a := by
+  constructor <;> rintro ⟨s, t, h1, h2, h3, h4, e⟩ <;> exact ⟨t, s, h3, h4, h1, h2, e.symm⟩
+
 /-- the pair test of two placed copies is unchanged when both placements are shifted by the same
 vector -/
 theorem shape_shift (sh : Shape ℝ) (t u : Mat3 ℝ) (ht : C12.Affine t) (hu : C12.Affine u)
@@ -338,20 +360,16 @@ theorem seg_point_near (l : Line2 ℝ) (R : ℝ) (hs : nrm l.sx l.sy ≤ R) (he 
   linarith
 
 /-- outlines whose edge END points are also within the enclosing radius (the enclosing radius of a
-`LineShape` is the maximum over START points only): copies whose positions are more than `2R`
-apart test negative -/
+`LineShape` is the maximum over START points only): in copies whose positions are more than `2R`
+apart no edge of one shares a point with an edge of the other -/
 theorem line_prefilter (items : List (Line2 ℝ))
     (hend : ∀ l ∈ items, dist (sc0 : ℝ) sc0 l.ex l.ey ≤ (Shape.line items).enclosingRadius)
     (t u : Mat3 ℝ)
     (ht : C12.Affine t) (hto : C12.Orthogonal t) (hu : C12.Affine u) (huo : C12.Orthogonal u)
     (hfar : (2 * (Shape.line items).enclosingRadius) ^ 2 <
       (t.m02 - u.m02) * (t.m02 - u.m02) + (t.m12 - u.m12) * (t.m12 - u.m12)) :
-    ((Shape.line items).transform t).intersects ((Shape.line items).transform u) = false := by
-  rw [Bool.eq_false_iff]
-  intro h
-  simp only [Shape.transform] at h
-  rw [C12.poly_iff_edges] at h
-  obtain ⟨a', ha', b', hb', _, s, r, hs0, hs1, hr0, hr1, heq⟩ := h
+    ¬ ∃ a' ∈ items.map (·.transform t), ∃ b' ∈ items.map (·.transform u), C12.SharePoint a' b' := by
+  rintro ⟨a', ha', b', hb', s, r, hs0, hs1, hr0, hr1, heq⟩
   rw [List.mem_map] at ha' hb'
   obtain ⟨a, ha, rfl⟩ := ha'
   obtain ⟨b, hb, rfl⟩ := hb'
